@@ -277,6 +277,10 @@ func (r *renderer) number(v model.V) model.Ev {
 
 func (r *renderer) unknownValue(out *[]model.Ev) {
 	cfg := gen.StreamCfg{Ext: true, Refs: true, Budget: 12, MaxDepth: 3, ValidUTF8: r.route == "json", Finite: r.route == "json", NoBigUint: r.route == "ubjson"}
+	if rapid.IntRange(0, 2).Draw(r.t, "unkdeep") == 0 {
+		// deep unknown values: arrays in objects in arrays in arrays ...
+		cfg.Budget, cfg.MaxDepth, cfg.Deep = 30, 7, true
+	}
 	evs, _ := gen.Stream(r.t, cfg)
 	*out = append(*out, evs...)
 }
